@@ -311,7 +311,14 @@ class Interp:
         p.verify(name)
         p.no_alias(name, flat)
         sb = sig_bytes(flat)
-        # repeat under the same seed: bit-identical
+        # the caller owns the outputs: overwrite them, then repeat under the same seed - the repeat must be bit-identical to the
+        # first result (a cached/memoised return value shared between calls would now carry the garbage)
+        for _, a_ in flat:
+            if isinstance(a_, np.ndarray) and a_.size and a_.flags.writeable and a_.base is None:
+                try:
+                    a_[...] = a_ + 1 if a_.dtype.kind in "iufc" else ~a_
+                except (TypeError, ValueError):
+                    pass
         np.random.seed(seed)
         out2 = lib(fn, p)
         check(sig_bytes(flatten(out2)) == sb, "not-reproducible-under-np.random.seed", f"{name} (seed {seed})")
